@@ -4,6 +4,7 @@ From Coq Require Import List NArith ZArith.
 From AGH Require Import Base.Run Base.Bytes Base.Dom Base.PathClean Model.ClientID Model.CertNames.
 From AGH Require Import Model.GoLower Model.CertPrepare.
 From AGH Require Import Model.ClientIDCache Model.ClientIDReconf Model.TLSSettings.
+From AGH Require Import Model.TLSGlue Model.DoHTarget.
 Import ListNotations.
 Local Open Scope N_scope.
 
@@ -110,7 +111,24 @@ Inductive case :=
   (* unicode.CaseRanges of the running toolchain: (Lo, Hi, Delta[LowerCase]) *)
   | CCaseTab (tab : list (N * N * Z))
   (* Prepare calls and handshakes on one Server *)
-  | CPrep (steps : list pstep).
+  | CPrep (steps : list pstep)
+  (* round 6: one TLS section of the configuration through the real
+     newDNSTLSConfig ([pair_ok]: tls.X509KeyPair accepts what was loaded,
+     [addrs]: the bind hosts are not nil); observed: the TLSConfig it returned
+     ([None]: an error); then, through the real tlsManager and Reconfigure of
+     the DNS server, real handshakes on the DoT port: the leaf certificate's
+     SAN DNS names, CommonName, IP SANs; per handshake the server name, v6 as
+     in CHello, accepted *)
+  | CGlue (s : tls_settings) (pair_ok addrs : bool) (obs : option dns_tls_conf)
+          (dns : list bytes) (cn : bytes) (has_ip : bool) (hellos : list (bytes * bool * bool))
+  (* round 6: a DoH request as net/http parsed it from the request line
+     "GET <target> HTTP/1.1": configured name, strict, the target as sent, the
+     TLS name, the Host header; observed: URL.Path ([None]: http.ReadRequest
+     refused the request), code and id of clientIDFromDNSContext *)
+  | CTarget (host : bytes) (strict : bool) (target : bytes) (tls : option bytes) (hh : bytes)
+            (obs_path : option bytes) (obs : N) (obs_id : bytes)
+  (* url.PathUnescape ([None]: an error) *)
+  | CUnescape (s : bytes) (obs : option bytes).
 
 Definition eqb_res (r : N * bytes) (c : N) (id : bytes) : bool :=
   (fst r =? c) && eqb_bytes (snd r) id.
@@ -221,6 +239,45 @@ Fixpoint prep_first_bad (k : N) (st : tls_state) (steps : list pstep) : N * byte
       else (100 * k + (if on_get_certificate st sni v6 then 1 else 0), names st)
   end.
 
+Definition mk_dt (has_cert : bool) (name : bytes) (strict https dot doq : bool) : dns_tls_conf :=
+  {| dt_has_cert := has_cert; dt_server_name := name; dt_strict := strict;
+     dt_https := https; dt_dot := dot; dt_doq := doq |}.
+
+Definition no_dt : option dns_tls_conf := None.
+
+Definition eqb_dt (a b : dns_tls_conf) : bool :=
+  Bool.eqb (dt_has_cert a) (dt_has_cert b) && eqb_bytes (dt_server_name a) (dt_server_name b)
+  && Bool.eqb (dt_strict a) (dt_strict b) && Bool.eqb (dt_https a) (dt_https b)
+  && Bool.eqb (dt_dot a) (dt_dot b) && Bool.eqb (dt_doq a) (dt_doq b).
+
+(** The state of a server that was given these settings last (whatever it
+    had before: C16_reconf_handshake_current_cert). *)
+Definition glue_state (s : tls_settings) (pair_ok addrs : bool) (dns : list bytes) (cn : bytes)
+    (has_ip : bool) : option tls_state :=
+  serve_settings false tls_state0 s pair_ok addrs {| c_dns_names := dns; c_common_name := cn |} has_ip.
+
+Definition glue_ok (s : tls_settings) (pair_ok addrs : bool) (obs : option dns_tls_conf)
+    (dns : list bytes) (cn : bytes) (has_ip : bool) (hellos : list (bytes * bool * bool)) : bool :=
+  eqb_option eqb_dt (new_dns_tls_config false s pair_ok addrs) obs &&
+  match glue_state s pair_ok addrs dns cn has_ip with
+  | Some st =>
+      if ts_installed st then
+        forallb (fun h => Bool.eqb (on_get_certificate st (fst (fst h)) (snd (fst h))) (snd h)) hellos
+      else match hellos with [] => true | _ :: _ => false end
+  | None => match hellos with [] => true | _ :: _ => false end
+  end.
+
+Definition target_ok (host : bytes) (strict : bool) (t : bytes) (tls : option bytes) (hh : bytes)
+    (obs_path : option bytes) (obs : N) (id : bytes) : bool :=
+  match parse_target t, obs_path with
+  | TRejected, None => true
+  | TPath p, Some p' =>
+      eqb_bytes p p' &&
+      eqb_res (res_code (client_id_of DoH host strict None
+                 (Some {| d_path := p; d_tls_sni := tls; d_host_hdr := hh |}))) obs id
+  | _, _ => false
+  end.
+
 Definition case_ok (c : case) : bool :=
   match c with
   | CCtx p host strict sni req obs id =>
@@ -245,6 +302,9 @@ Definition case_ok (c : case) : bool :=
   | CLower s obs => eqb_bytes (go_to_lower s) obs
   | CCaseTab tab => eqb_list eqb_range tab case_ranges
   | CPrep steps => prep_ok tls_state0 steps
+  | CGlue s po a obs dns cn ip hellos => glue_ok s po a obs dns cn ip hellos
+  | CTarget host strict t tls hh op obs id => target_ok host strict t tls hh op obs id
+  | CUnescape s obs => eqb_option eqb_bytes (unescape s) obs
   end.
 
 Definition mismatches := Base.Run.mismatches case_ok.
@@ -275,4 +335,35 @@ Definition explain (c : case) : N * bytes :=
   | CLower s _ => (0, go_to_lower s)
   | CCaseTab tab => (N.of_nat (length case_ranges), nil)
   | CPrep steps => prep_first_bad 1 tls_state0 steps
+  (* 100 * (2 glue error | strict handed over) + 10 * installed + number of
+     handshakes the model lets through; the name handed over *)
+  | CGlue s po a _ dns cn ip hellos =>
+      match new_dns_tls_config false s po a with
+      | None => (200, nil)
+      | Some d =>
+          ((if dt_strict d then 100 else 0) +
+           match glue_state s po a dns cn ip with
+           | Some st =>
+               (if ts_installed st then 10 else 0) +
+               N.of_nat (length (filter (fun h => on_get_certificate st (fst (fst h)) (snd (fst h))) hellos))
+           | None => 0
+           end, dt_server_name d)
+      end
+  (* 900 rejected by net/http, 901 outside the model; else the code and the id,
+     or the path when it is the path that differs *)
+  | CTarget host strict t tls hh op _ _ =>
+      match parse_target t with
+      | TRejected => (900, nil)
+      | TOther => (901, nil)
+      | TPath p =>
+          match op with
+          | Some p' =>
+              if eqb_bytes p p' then
+                res_code (client_id_of DoH host strict None
+                            (Some {| d_path := p; d_tls_sni := tls; d_host_hdr := hh |}))
+              else (902, p)
+          | None => (902, p)
+          end
+      end
+  | CUnescape s _ => match unescape s with Some u => (0, u) | None => (1, nil) end
   end.
